@@ -12,11 +12,19 @@ evaluated on the implementation after every edit + `sequence()` is a linear exte
 register-adding prologue prescribes + depth/register depth/incompatibility sets recomputed by own graph code.
 Specifications assumed for networkx (`topological_sort`, `ancestors`, `descendants`, `dag_longest_path_length`) are
 checked on every observed result.
+After every successful `group_one_qubit_gates` / `unwrap_nodes` / `remove_identity` of a random walk the statement of
+`C12.rewrite_history_on_wired_wires` (`group_is_fuse_of_runs_on_wired_wires`, `unwrap_nodes_is_flatMap_on_wired_wires`,
+`remove_identity_is_filter_on_wired_wires`) is evaluated on the implementation: every wire's operation sequence — each operation with
+the classical registers it is actually threaded on — must be the rewrite's list edit (`fuseWire`: maximal runs of groupable operations ->
+one wrapper, classes of the last operation first; flatMap-unwrap; filter of the non-identities; own Python transcriptions) of what it was.
+After every successful node-addressed edit (add / insert_at / remove_op / replace_op on existing registers) the statement of
+`C12.node_history_wires` is evaluated: the wires as node lists and `_node_id` must be `wiresStep` (splice before the output / between the
+ends of the given edges, erase, keep) of what they were.
 """
 import time
 
 from harness import dagutil as du
-from harness.common import Driver, Result
+from harness.common import Driver, Result, impl_guard
 
 LEVEL = "proof"
 TRUSTED_BASE = [
@@ -67,6 +75,134 @@ def expected_regs(before, ed):
 
 def reg_counts(circ):
     return {t: len(circ._registers._registers[t]) for t in "epc"}
+
+
+# ---- `group_one_qubit_gates` = fuse of runs on every wire (theorem C12.group_is_fuse_of_runs_after_any_history), executed
+ONE_Q_BASE = {"Hadamard", "SigmaX", "SigmaY", "SigmaZ", "Phase", "PhaseDagger", "Identity", "RX", "RY", "RZ",
+              "ParameterizedOneQubitRotation", "OneQubitGateWrapper"}
+
+
+def wire_tokens(circ):
+    """{register: [operation token of every operation node on the wire, in wire order]}, read off the keyed edges; every token AS
+    WIRED (`wiredWire` of Proofs/MetricsHistIso.lean): only the classical registers the node is actually threaded on"""
+    g = circ.dag
+    out = {}
+    for t in "epc":
+        for i in range(len(circ._registers._registers[t])):
+            k = f"{t}{i}"
+            nxt = {u: v for u, v, kk in g.edges(keys=True) if kk == k}
+            n, seq = f"{k}_in", []
+            while n in nxt and len(seq) <= len(nxt) + 1:
+                n = nxt[n]
+                if not isinstance(n, str):
+                    name, q, c, lab, inner = du.op_token(g.nodes[n]["op"]).split(":")
+                    threaded = {kk[1:] for _, _, kk in g.in_edges(n, keys=True) if kk.startswith("c")}
+                    cs = [] if c == "*" else [x for x in c.split(".") if x in threaded]
+                    seq.append(":".join([name, q, du.emp(".".join(cs)), lab, inner]))
+            out[k] = seq
+    return out
+
+
+def wire_nodes(circ):
+    """{register: [node, …]} — every wire as the list of its nodes (`in`, operation nodes, `out`), read off the keyed edges"""
+    g = circ.dag
+    out = {}
+    for t in "epc":
+        for i in range(len(circ._registers._registers[t])):
+            k = f"{t}{i}"
+            nxt = {u: v for u, v, kk in g.edges(keys=True) if kk == k}
+            n, seq = f"{k}_in", [f"{k}_in"]
+            while n in nxt and len(seq) <= len(nxt) + 1:
+                n = nxt[n]
+                seq.append(n)
+            out[k] = seq
+    return out
+
+
+def wires_step(P, nid, ed):
+    """`wiresStep` of Properties/C12.lean: the list edit of a node-addressed edit on the wires (node lists); -> (wires, _node_id)"""
+    P = {k: list(v) for k, v in P.items()}
+    kind = ed[0]
+    if kind == "A":
+        name, q, c, lab, inner = ed[1].split(":")
+        regs = ([] if q == "*" else q.split(".")) + ([] if c == "*" else ["c" + x for x in c.split(".")])
+        for k in regs:
+            P[k] = P[k][:-1] + [nid + 1, P[k][-1]]
+        return P, nid + 1
+    if kind == "I":
+        for (u, v, k) in ed[2]:
+            i = P[k].index(u)
+            P[k] = P[k][:i + 1] + [nid + 1] + P[k][i + 1:]
+        return P, nid + 1
+    if kind == "R":
+        return {k: [x for x in v if x != ed[1]] for k, v in P.items()}, nid
+    return P, nid
+
+
+def node_edit_covered(circ, ed):
+    """hypothesis `NodeEditOK` of `C12.node_history_wires` as far as the harness can see it before the call: a node-addressed edit whose
+    operation names existing registers only"""
+    if ed[0] not in ("A", "I", "R", "P"):
+        return False
+    if ed[0] in ("A", "I"):
+        name, q, c, lab, inner = ed[1].split(":")
+        regs = {t: len(circ._registers._registers[t]) for t in "epc"}
+        for x in ([] if q == "*" else q.split(".")):
+            if int(x[1:]) >= regs[x[0]]:
+                return False
+        for x in ([] if c == "*" else c.split(".")):
+            if int(x) >= regs["c"]:
+                return False
+        if q == "*":
+            return False
+    return True
+
+
+def unwrap_wire(toks):
+    """`flatMap Op.unwrap`: a wrapper becomes its gates in application order (the reverse of its gate list), fresh one-qubit objects"""
+    out = []
+    for tok in toks:
+        name, q, _, _, inner = tok.split(":")
+        if name == "OneQubitGateWrapper":
+            out += [f"{k}:{q}:*:one-qubit:*" for k in reversed([] if inner == "*" else inner.split("."))]
+        else:
+            out.append(tok)
+    return out
+
+
+def rewrite_wire(kind, r, toks):
+    """the list edit `Rewrite.onWire` of Properties/C12.lean"""
+    if kind == "G":
+        return fuse_wire(r, toks)
+    if kind == "U":
+        return unwrap_wire(toks)
+    return [t for t in toks if t.split(":")[0] != "Identity"]
+
+
+def fuse_wire(r, toks):
+    """`fuseWire r` of Proofs/Fuse.lean on operation tokens: every maximal run of adjacent groupable operations (label "one-qubit",
+    one-qubit gate class) becomes ONE wrapper whose gate list is the run's classes, last operation first (nothing if that list is
+    empty); every other operation stays"""
+    out, run = [], []
+
+    def flush():
+        gates = []
+        for tok in reversed(run):
+            name, _, _, _, inner = tok.split(":")
+            gates += ([] if inner == "*" else inner.split(".")) if name == "OneQubitGateWrapper" else [name]
+        if gates:
+            out.append(f"OneQubitGateWrapper:{r}:*:one-qubit:{'.'.join(gates)}")
+        run.clear()
+
+    for tok in toks:
+        name, _, _, lab, _ = tok.split(":")
+        if "one-qubit" in lab.split(".") and name in ONE_Q_BASE:
+            run.append(tok)
+        else:
+            flush()
+            out.append(tok)
+    flush()
+    return out
 
 
 def oracle_state(circ, before_regs, ed, err):
@@ -305,17 +441,41 @@ def one_walk(ctx, res, drv, rng, init, steps, malformed_rate=0.04, query_every=1
         ed = du.gen_edit(rng, h.circ, malformed=mal, max_regs=max_regs)
         before = reg_counts(h.circ)
         full = (s % query_every == 0) or s == steps - 1
+        wires_before = wire_tokens(h.circ) if ed[0] in ("G", "U", "D") else None
+        nodes_before = (wire_nodes(h.circ), h.circ._node_id) if (not mal and node_edit_covered(h.circ, ed)) else None
         # the un-memoised recursion of register_depth is exponential in the worst case: ask only when cheap
         err = h.step(ed, "*")
         if err == "skipped":
             continue
+        if wires_before is not None and err is None:
+            wires_after = wire_tokens(h.circ)
+            res.count("branches", f"rewrite:{ed[0]}:list-edit-on-wired-wires-evaluated")
+            for r, w in wires_before.items():
+                if wires_after.get(r) != rewrite_wire(ed[0], r, w):
+                    res.exact_break("rewrite.list-edit-on-wires:" + ed[0], input=h.input(), impl=wires_after.get(r), model=rewrite_wire(ed[0], r, w),
+                                    note=f"wire {r} (operations as wired) after the rewrite is not the list edit of the wire before "
+                                         "(theorem rewrite_history_on_wired_wires / group_is_fuse_of_runs_on_wired_wires contradicted by evaluation)")
+                    break
+        if nodes_before is not None and err is None:
+            want, nid = wires_step(nodes_before[0], nodes_before[1], ed)
+            got = wire_nodes(h.circ)
+            res.count("branches", f"node-edit:{ed[0]}:list-edit-on-wires-evaluated")
+            if got != want or h.circ._node_id != nid:
+                res.exact_break("node-edit.list-edit-on-wires:" + ed[0], input=h.input(), impl=str(got)[:400], model=str(want)[:400],
+                                note="the wires (node lists) after a node-addressed edit are not the list edit `wiresStep` of the wires before "
+                                     "(theorem node_history_wires contradicted by evaluation)")
         res.evaluations += 1
         res.count("sizes", "nodes<=10" if len(h.circ.dag) <= 10 else ("nodes<=40" if len(h.circ.dag) <= 40 else ("nodes<=120" if len(h.circ.dag) <= 120 else "nodes>120")))
         res.branch([("mal:" if mal else "") + ed[0] + (":" + err if err else "")])
         if err:
             res.count("errors", err)
         if err == "key" and ed[0] == "I":
-            break  # orphan node left behind by the failed _insert_at: outside the property (see handoff)
+            # orphan node left behind by the failed _insert_at: the state is outside the property (see handoff) — for an ill-formed call.
+            # A well-formed insert_at that raises is reported like every other well-formed edit that raises (it used to be dropped here).
+            if not mal:
+                report_violation(res, h, s, f"api:{ed[0]}:raises:{err}", f"{du.edit_token(ed)} raised {err} on a well-formed call")
+                taint = True
+            break
         qs = choose_queries(rng, h.circ, full)
         h.qs[-1] = qs
         h.ans[-1] = du.answers(h.circ, qs)
@@ -500,21 +660,28 @@ def run(ctx):
                 "non-trivial = the circuit has at least one operation node or the edit raised; distinct by (initial registers, whole edit history so far)")
     drv = du.RDriver()
     rng = ctx.rng
-    class_table(res)
+    # the streams run under common.impl_guard: graphiq calls made outside apply_edit / the query wrappers (constructors, copy(),
+    # find_incompatible_edges while choosing an edit, op.unwrap() ...) that raise are reported instead of ending as exit 2
+    with impl_guard(res, "ops.table"):
+        class_table(res)
+    n2 = n3 = 0
     if ctx.quick:
-        n2 = exhaustive(ctx, res, drv, 2, SMALL_INITS)
-        n3 = exhaustive(ctx, res, drv, 3, [(1, 1, 0)], cap=2500)
+        with impl_guard(res, "exhaustive", promise=True):
+            n2 = exhaustive(ctx, res, drv, 2, SMALL_INITS)
+            n3 = exhaustive(ctx, res, drv, 3, [(1, 1, 0)], cap=2500)
         res.notes.append(f"exhaustive: {n2} histories of <= 2 edits on <= 3 registers from {len(SMALL_INITS)} initial circuits; {n3} histories of <= 3 edits from (1,1,0) (capped)")
         plan = [((rng.randrange(1, 3), rng.randrange(0, 3), rng.randrange(0, 2)), 60, 1) for _ in range(60)] + \
                [((rng.randrange(1, 4), rng.randrange(1, 4), rng.randrange(0, 3)), 300, 5) for _ in range(8)]
     else:
-        n3 = exhaustive(ctx, res, drv, 3, SMALL_INITS)
-        res.exhaustive = True
+        with impl_guard(res, "exhaustive", promise=True):
+            n3 = exhaustive(ctx, res, drv, 3, SMALL_INITS)
+            res.exhaustive = True
         res.notes.append(f"exhaustive: all {n3} histories of <= 3 edits (menu of every position x fixed operation classes) on <= 3 registers from {len(SMALL_INITS)} initial circuits")
         plan = [((rng.randrange(0, 3), rng.randrange(0, 3), rng.randrange(0, 2)), 80, 1) for _ in range(400)] + \
                [((rng.randrange(1, 4), rng.randrange(1, 4), rng.randrange(0, 3)), 300, 4) for _ in range(80)]
     for k, (init, steps, qe) in enumerate(plan):
-        one_walk(ctx, res, drv, rng, init, steps, query_every=qe, misuse_end=(k % 3 == 0))
+        with impl_guard(res, "walk", promise=True, input={"ne": init[0], "np": init[1], "nc": init[2], "walk": k}):
+            one_walk(ctx, res, drv, rng, init, steps, query_every=qe, misuse_end=(k % 3 == 0))
         if new_violations(res):
             break
     res.extra["driver_lines"] = drv.n_lines
